@@ -21,6 +21,7 @@
 use std::cell::RefCell;
 use std::collections::HashMap;
 use std::fmt::Write as FmtWrite;
+use std::hash::{Hash, Hasher};
 use std::io::{self, BufRead, Write};
 use std::panic;
 
@@ -34,6 +35,22 @@ use yarel::vm::{self, Vm};
 thread_local! {
     static OUTPUT: RefCell<Vec<String>> = RefCell::new(Vec::new());
     static MODULES: RefCell<HashMap<String, String>> = RefCell::new(HashMap::new());
+}
+
+// Captures the u64 a `Hash` impl writes (yarel values hash by writing one precomputed u64).
+struct CaptureHasher(u64);
+
+impl Hasher for CaptureHasher {
+    fn write(&mut self, bytes: &[u8]) {
+        let mut b = [0u8; 8];
+        let n = bytes.len().min(8);
+        b[..n].copy_from_slice(&bytes[..n]);
+        self.0 = u64::from_ne_bytes(b);
+    }
+
+    fn finish(&self) -> u64 {
+        self.0
+    }
 }
 
 fn unhex(s: &str) -> Option<Vec<u8>> {
@@ -493,7 +510,14 @@ fn run_case(id: &str, opts: &Opts, steps: &[String]) -> String {
             match unhex_str(hex) {
                 Some(text) => {
                     let id = vmr.verif_string_id(&text);
-                    let _ = write!(out, "\"status\":\"id\",\"addr\":{}", id);
+                    let gc = vmr.new_gc_obj_string(&text);
+                    let mut hasher = CaptureHasher(0);
+                    Value::ObjString(gc).hash(&mut hasher);
+                    let _ = write!(
+                        out,
+                        "\"status\":\"id\",\"addr\":{},\"hash\":\"{:016x}\"",
+                        id, hasher.0
+                    );
                 }
                 None => out.push_str("\"status\":\"bad-step\""),
             }
